@@ -596,6 +596,60 @@ func runC18(w *World, r *Report) {
 	shareRule(w, r, "C18.model-stream-closed-once-per-copy", "a copy of the model's stream counts as closed once however often Close is called on it: the source is closed when every copy is closed, not when the checker's copy was closed twice (the tools node / END would read a truncated stream under Stream only)", 1, "C08", "C08.copy-cell")
 	shareRule(w, r, "C18.every-call-is-executed", "every tool call of a message is executed, repeated ones included: task i is tool call i and result i is task i's own outcome under Invoke as under Stream (a de-duplication by name and arguments answers a stateful tool's second call with the first one's result, in Generate only)", 1, "C17", "C17.index-preserved")
 	shareRule(w, r, "C18.run-time-limit-replaces", "a run-time step limit replaces the compiled one whichever is larger: an agent built with MaxStep 3 and run with WithRuntimeMaxSteps(10) gets ten steps", 1, "C01", "C01.runtime-limit-replaces")
+	r.Rule("C18.direct-return-looks-at-every-slot", "the converter behind the return-directly branch looks through the whole frame of tool results for the recorded call id: under Generate the tools node hands over ONE frame with every slot filled, so the loop over the frame is left early only where the id matched", 1)
+	{
+		brd := w.Fn("flow/agent/react", "buildReturnDirectly")
+		n := 0
+		for _, lit := range withAnons(brd) {
+			for _, li := range naturalLoops(lit) {
+				// loops over a []*schema.Message only
+				isFrameLoop := false
+				for b := range li.body {
+					for _, x := range b.Instrs {
+						if ia, ok := x.(*ssa.IndexAddr); ok {
+							if sl, isSl := ia.X.Type().Underlying().(*types.Slice); isSl && strings.HasSuffix(sl.Elem().String(), "schema.Message") {
+								isFrameLoop = true
+							}
+						}
+					}
+				}
+				if !isFrameLoop {
+					continue
+				}
+				n++
+				bad := ""
+				for b := range li.body {
+					if b == li.header {
+						continue
+					}
+					for _, sc := range b.Succs {
+						if li.body[sc] {
+							continue
+						}
+						// an early exit: allowed where the id comparison holds
+						matched := false
+						for _, g := range append(guardsOf(b), guardsOfEdge(b, sc)...) {
+							if op, x, y, okc := asCmp(g.cond); okc && op == token.EQL && g.pol {
+								fx, _ := loadedField(x)
+								fy, _ := loadedField(y)
+								if (fx != nil && fx.Name() == "ToolCallID") || (fy != nil && fy.Name() == "ToolCallID") {
+									matched = true
+								}
+							}
+						}
+						if !matched {
+							bad = fmt.Sprintf("b%d leaves the loop without the id having matched", b.Index)
+						}
+					}
+				}
+				r.Check(bad == "", "C18.direct-return-looks-at-every-slot", fmt.Sprintf("%s: loop over the frame", lit.Name()), lit.Pos(), "left early only on a match", bad+": the loop stops at the first filled slot — right for the one-slot frames of ToolsNode.Stream, but under Generate the frame has every slot filled, so with calls [plain, direct] the return-directly result is not found and the run fails 'stream reader is empty, concat fail' at node direct_return while Stream returns it")
+			}
+		}
+		if n == 0 {
+			r.Deferred = append(r.Deferred, "C18.direct-return-looks-at-every-slot: no loop over a message frame found in buildReturnDirectly")
+		}
+	}
+	shareRule(w, r, "C18.tool-call-fields-per-call", "id, type and name of a merged tool call are collected per call: none of them is carried from one index group to the next (under Stream the agent's tools node rebuilds the assistant message from its chunks; a carried type fails the merge or is inherited by a call that had none)", 1, "C14", "C14.map-order-carried")
 
 	// ---- the default stream tool-call checker: an empty leading chunk decides nothing
 	r.Rule("C18.default-checker", "the default stream checkers answer 'no tool call' only at end of stream or on a chunk with content; 'tool call' only on a chunk with tool calls", 4)
